@@ -134,10 +134,33 @@ def mutated_anywhere(R, module, name):
     return None
 
 
+def shared_default_objects(R, rule):
+    """A default argument is evaluated once, when the function is defined: an object constructed there (an exception instance, a
+    container, a future) is one process-wide object handed to every call on every thread.  asynq records per-computation state on
+    such objects (on exceptions: _task, _traceback), so threads would see each other's tasks."""
+    n = 0
+    for f in R.repo.all_functions():
+        if f.module.name.startswith("tests"):
+            continue
+        a = f.node.args
+        pos = a.posonlyargs + a.args
+        pairs = list(zip(pos[len(pos) - len(a.defaults):], a.defaults)) + [(p_, d_) for p_, d_ in zip(a.kwonlyargs, a.kw_defaults) if d_ is not None]
+        for p_, d_ in pairs:
+            n += 1
+            built = isinstance(d_, ast.Call) and (q.call_name(d_) or "").split(".")[-1] not in ("object", "frozenset", "tuple", "MarkerObject")
+            R.check(not built, rule, "%s:default:%s" % (f.qualname, p_.arg), R.site(f, d_),
+                    "the default of %s is not an object built when the function is defined" % p_.arg,
+                    "the default of `%s` is `%s`, evaluated once at import: every call that omits the argument - on every thread - gets the same object "
+                    "(for an exception: asynq stamps _task/_traceback on it, a handler in one thread sees the failed task and frames of another thread's "
+                    "computation)" % (p_.arg, q.src(d_)))
+    R.check(n >= 20, rule, "defaults", "asynq/", "%d parameter defaults examined" % n, "fewer than 20 parameter defaults found (%d)" % n)
+
+
 def run(R):
     R.extra["explanation"] = EXPLANATION
     ro = Roles(R)
     repo = R.repo
+    shared_default_objects(R, "C16.STATE")
     n_bind = 0
     classes_count = {}
     for mname, m in sorted(repo.modules.items()):
